@@ -279,7 +279,32 @@ func c17Characters(c *Ctx, sample bool) {
 	}
 }
 
+// respell rewrites "--name=value" arguments into the other forms the flag syntax allows:
+// -name=value, --name value, -name value.
+func respell(r *gen.R, args []string) []string {
+	out := []string{args[0]}
+	for _, a := range args[1:] {
+		if strings.HasPrefix(a, "--") && strings.Contains(a, "=") && !strings.HasPrefix(a, "--file=") {
+			kv := strings.SplitN(a[2:], "=", 2)
+			switch r.Intn(6) {
+			case 0:
+				out = append(out, "-"+kv[0]+"="+kv[1])
+				continue
+			case 1:
+				out = append(out, "--"+kv[0], kv[1])
+				continue
+			case 2:
+				out = append(out, "-"+kv[0], kv[1])
+				continue
+			}
+		}
+		out = append(out, a)
+	}
+	return out
+}
+
 func shuffleFlags(r *gen.R, args []string) []string {
+	args = respell(r, args)
 	if len(args) < 3 || r.Bool() {
 		return args
 	}
